@@ -256,6 +256,20 @@ func (w *World) ruleConvertedSinks(r *Report, rule string) {
 			ok := true
 			var facts []string
 			for _, v := range vals {
+				// the stored value is a parameter of an extracted helper
+				// (`growList(holder, list, elem)` = Append + change): it stands for the
+				// operands at the helper's call sites, each classified like a direct operand
+				if args, isPrm := w.helperParamOperands(v, 0); isPrm {
+					for _, a := range args {
+						if okA, fact := classifyConverted(a, conv); okA {
+							facts = append(facts, "parameter "+v.Name()+" ← "+fact)
+						} else {
+							ok = false
+							facts = append(facts, "parameter "+v.Name()+" ← "+fact)
+						}
+					}
+					continue
+				}
 				c, isCall := v.(*ssa.Call)
 				switch {
 				case isCall && c.Call.StaticCallee() != nil && conv[fnName(c.Call.StaticCallee())]:
@@ -279,6 +293,60 @@ func (w *World) ruleConvertedSinks(r *Report, rule string) {
 	// floor over the readers served (typed list, untyped list, typed map, map
 	// field), not over sink sites: two readers may store through one helper
 	r.floor(rule+" (Decoder methods whose stores were examined)", len(readers), 4)
+}
+
+// classifyConverted: one operand of a reflect sink: converted by the element
+// converter, or an interface-typed element `reflect.ValueOf(&x).Elem()`.
+func classifyConverted(v ssa.Value, conv map[string]bool) (bool, string) {
+	c, isCall := v.(*ssa.Call)
+	switch {
+	case isCall && c.Call.StaticCallee() != nil && conv[fnName(c.Call.StaticCallee())]:
+		return true, "converted by " + fnName(c.Call.StaticCallee())
+	case isCall && c.Call.StaticCallee() != nil && qualifiedFnName(c.Call.StaticCallee()) == "(reflect.Value).Elem":
+		if vo, ok := c.Call.Args[0].(*ssa.Call); ok && vo.Call.StaticCallee() != nil && qualifiedFnName(vo.Call.StaticCallee()) == "reflect.ValueOf" {
+			return true, "interface-typed element (ValueOf(&x).Elem())"
+		}
+	}
+	return false, "unconverted value " + v.String() + " (e.g. an int32 stored into a map[string]int panics)"
+}
+
+// helperParamOperands: v is a parameter of an unexported package function (not
+// a method, not a literal) that is only ever called statically from inside the
+// package: the operands handed over for it at all those call sites (a parameter
+// of a further such helper is followed, depth ≤ 3).  isPrm is false when v is not
+// such a parameter (then it is classified as it stands).
+func (w *World) helperParamOperands(v ssa.Value, depth int) (args []ssa.Value, isPrm bool) {
+	prm, ok := v.(*ssa.Parameter)
+	if !ok || depth > 3 {
+		return nil, false
+	}
+	fn := prm.Parent()
+	if fn == nil || fn.Parent() != nil || fn.Signature.Recv() != nil || token.IsExported(fn.Name()) || !w.inPkg(fn) {
+		return nil, false
+	}
+	pi := -1
+	for i, q := range fn.Params {
+		if q == prm {
+			pi = i
+		}
+	}
+	n := w.CG.Nodes[fn]
+	if pi < 0 || n == nil || len(n.In) == 0 {
+		return nil, false
+	}
+	for _, e := range n.In {
+		c, ok := e.Site.(*ssa.Call)
+		if !ok || c.Call.StaticCallee() != fn || e.Caller.Func == nil || !w.inPkg(e.Caller.Func) || pi >= len(c.Call.Args) {
+			return nil, false // called through a function value, go/defer, or from outside
+		}
+		a := c.Call.Args[pi]
+		if more, isP := w.helperParamOperands(a, depth+1); isP {
+			args = append(args, more...)
+		} else {
+			args = append(args, a)
+		}
+	}
+	return args, true
 }
 
 // decoderLayer: the methods of *Decoder, and the unexported package functions
@@ -459,24 +527,11 @@ func (w *World) ruleRefOrdinal(r *Report, rule string) {
 	// with the int codec and nothing else
 	okBody, tagOK := w.refWriterBody(wr)
 	r.add(rule, "(*Encoder).writeRef · x51 then int(ordinal)", w.pos(wr.Pos()), okBody && tagOK, fmt.Sprintf("tag x51 written=%v, ordinal parameter written with the int codec=%v", tagOK, okBody))
-	// the registrar returns the stored ordinal on a hit
-	fr := w.flow(reg)
-	hit := false
-	for _, b := range reg.Blocks {
-		ret, isRet := b.Instrs[len(b.Instrs)-1].(*ssa.Return)
-		if !isRet {
-			continue
-		}
-		if ex, isEx := ret.Results[0].(*ssa.Extract); isEx && ex.Index == 0 {
-			if lk, isLk := ex.Tuple.(*ssa.Lookup); isLk {
-				if o, _, okf := w.fieldOfLoad(lk.X); okf && o == "Encoder" {
-					hit = true
-				}
-			}
-		}
-		_ = fr
-	}
-	r.add(rule, fnName(reg)+" · a hit returns the stored ordinal", w.pos(reg.Pos()), hit, "on a hit the value looked up in the ref table is returned")
+	// the registrar returns the stored ordinal on a hit: read from the registrar's paths
+	// (rules_registrar_px.go), so the lookup may sit in an accessor and the results may be
+	// named and joined in one return
+	hit, hitFact := w.registrarHitReturnsStored()
+	r.add(rule, fnName(reg)+" · a hit returns the stored ordinal", w.pos(reg.Pos()), hit, hitFact)
 	w.ruleRefKeyPins(r, rule)
 	r.floor(rule, n, 3)
 }
